@@ -45,7 +45,7 @@ public:
      * for any signature hash <hash>, the cryptographic check is skipped and the signature is
      * assumed to be valid.
      */
-    std::map<valtype,valtype> pretend_valid_map;
+    std::set<std::pair<valtype,valtype>> pretend_valid_map; // (signature, pubkey) pairs
     std::set<valtype> pretend_valid_pubkeys;
     bool has_preamble;
     bool allow_disabled_opcodes{false}; ///< --allow-disabled-opcodes; must be set before setup_environment()
